@@ -9,7 +9,7 @@ import (
 type Difference struct {
 	Path  string // "." for the root, else slash-joined names
 	Type  string // node-type label of the wanted node (of the found one for "extra"): root dir file symlink chr blk fifo sock
-	Field string // missing extra type mode-perm mode-setid uid gid mtime[-pre1970|-post2262] target xattrs device content (ino nlink ctime)
+	Field string // missing extra type mode-perm mode-setid uid gid mtime[-post2262] target xattrs device content (ino nlink ctime)
 	Msg   string
 }
 
@@ -29,13 +29,11 @@ type DiffOptions struct {
 	Max          int             // stop after this many differences (0 = 200)
 }
 
-// MtimeField names the mtime field of a wanted time stamp: values the catar format or Go's
-// time arithmetic treat specially get their own label so that their failures can be told apart.
+// MtimeField names the mtime field of a wanted time stamp: values at or beyond 2^63 ns, which
+// Go's int64 nanosecond arithmetic cannot hold although the catar field (uint64) and ext4 can,
+// get their own label so that their failures can be told apart.
 func MtimeField(sec, nsec int64) string {
-	switch {
-	case sec < 0:
-		return "mtime-pre1970"
-	case Post2262(sec, nsec):
+	if Post2262(sec, nsec) {
 		return "mtime-post2262"
 	}
 	return "mtime"
